@@ -48,6 +48,9 @@ type obsEntry struct {
 	Debit   bool
 	Addenda int
 	Cat     int // 0 Forward, 1 Return, 2 NOC, 3 DishonoredReturn, 4 DishonoredReturnContested, 9 other
+	// NoTotal: a transaction code outside the library's lists (valid under CheckTransactionCode only):
+	// calculateBatchAmounts counts it in neither total (not part of the interchange)
+	NoTotal bool
 }
 
 func catOf(c string) int {
@@ -122,7 +125,8 @@ func obsStd(e *ach.EntryDetail) obsEntry {
 		b.WriteString("|" + e.Addenda99Dishonored.String())
 		n++
 	}
-	return obsEntry{Trace: e.TraceNumber, Core: b.String(), Amount: e.Amount, Debit: e.TransactionCode%10 >= 5, Addenda: n, Cat: catOf(e.Category)}
+	noTotal := e.TransactionCode < 21 || e.TransactionCode > 56 || e.TransactionCode%10 == 0 || (e.TransactionCode%10 == 5 && e.TransactionCode != 55)
+	return obsEntry{Trace: e.TraceNumber, Core: b.String(), Amount: e.Amount, Debit: e.TransactionCode%10 >= 5, Addenda: n, Cat: catOf(e.Category), NoTotal: noTotal}
 }
 
 func obsIAT(e *ach.IATEntryDetail) obsEntry {
@@ -405,6 +409,9 @@ func figures(bs []obsBatch) (count, debit, credit int) {
 		for _, es := range [][]obsEntry{b.Entries, b.Adv} {
 			for _, e := range es {
 				count += 1 + e.Addenda
+				if e.NoTotal {
+					continue
+				}
 				if e.Debit {
 					debit += e.Amount
 				} else {
